@@ -157,6 +157,112 @@ def c08_fixed():
     return out
 
 
+def sibling_grammars(seed, n):
+    """two grammars with the SAME rule names (and the same class name, as in real code) but different definitions are built first;
+    then requests alternate between them, no definition in between; every answer must be the one the grammar gives alone (a cold
+    twin built afterwards).  Nothing may be shared between two grammar classes by name or by spelling."""
+    rng = random.Random(f"sib:{seed}")
+    mism, stats = [], {"sibling_pairs": 0, "sibling_requests": 0}
+    for k in range(n):
+        for _ in range(40):
+            g1 = gen.gen_grammar(rng, max_rules=4)
+            if len(g1["rules"]) >= 3:
+                break
+        else:
+            continue
+        names = [r["name"] for r in g1["rules"]]
+        # the sibling has the same rules, spelled the same, except for ONE rule that is referenced from inside a repetition or
+        # option of another rule: the repetition reads the same in both grammars and means something else
+        host = rng.choice(names)
+        guest = rng.choice([x for x in names if x != host] or names)
+        wrap = ["cat", [["rep", rng.choice([0, 1]), None, ["ref", guest]], ["opt", ["ref", guest]]]]
+        for r in g1["rules"]:
+            if r["name"] == host:
+                r["def"] = wrap if host != guest else r["def"]
+        if not gen.wf(g1):
+            continue
+        for _ in range(50):
+            g2 = json.loads(json.dumps(g1))
+            for r in g2["rules"]:
+                if r["name"] == guest:
+                    r["def"] = gen.gen_expr(rng, rng.randint(1, 2), [x for x in names if x not in (host, guest)], g1["alpha"])
+            if gen.wf(g2) and json.dumps(g2) != json.dumps(g1):
+                break
+        else:
+            continue
+        inputs = sorted(set(gen.gen_inputs(rng, g1, n_derived=3, n_mut=1, n_rand=1, maxlen=6)[:5] + gen.gen_inputs(rng, g2, n_derived=3, n_mut=1, n_rand=1, maxlen=6)[:5]))
+        try:
+            with pyimpl.time_limit(6.0):
+                c1, o1 = pyimpl.build_grammar(g1)
+                c2, o2 = pyimpl.build_grammar(g2)
+                got = []
+                for s in inputs:
+                    for nm in names:
+                        for i in range(len(s) + 1):
+                            for kind in (0, 2):
+                                got.append((1, kind, nm, s, i, req_impl(o1, kind, nm, s, i)))
+                                got.append((2, kind, nm, s, i, req_impl(o2, kind, nm, s, i)))
+                t1, p1 = pyimpl.build_grammar(g1)
+                want1 = {(kind, nm, s, i): req_impl(p1, kind, nm, s, i) for w, kind, nm, s, i, _ in got if w == 1}
+                t2, p2 = pyimpl.build_grammar(g2)
+                want2 = {(kind, nm, s, i): req_impl(p2, kind, nm, s, i) for w, kind, nm, s, i, _ in got if w == 2}
+        except pyimpl.SlowCase:
+            continue
+        stats["sibling_pairs"] += 1
+        stats["sibling_requests"] += len(got)
+        for w, kind, nm, s, i, r in got:
+            want = (want1 if w == 1 else want2)[(kind, nm, s, i)]
+            if r != want and "REC" not in (r, want):
+                mism.append({"class": "result", "op": ["req", kind, nm, s, i], "which_grammar": w, "impl": r[:300], "grammar_alone": want[:300],
+                             "what": "two grammar classes with the same rule names were alive at the same time and requests alternated between them",
+                             "case": {"grammar": g1, "sibling": g2}})
+                break
+        if len(mism) >= 3:
+            break
+    return mism, stats
+
+
+def aborted_by_recursion():
+    """a request that runs out of interpreter stack half-way (RecursionError: a runtime limit, not an answer), then the SAME request
+    again with enough stack: the second answer must be the one a fresh grammar gives — nothing computed or cached on the way to
+    the RecursionError may survive as if it were a result.  Several stack depths, so that the error strikes at different places."""
+    import sys
+    out = []
+    L = lambda t: ["lit", 0, t]  # noqa: E731
+    g = {"rules": [{"name": "p", "def": ["cat", [L("("), ["rep", 0, None, ["alt", 0, [["ref", "p"], L("a")]]], L(")")]], "excl": None},
+                   {"name": "w", "def": ["rep", 1, None, ["cat", [["opt", L(" ")], ["ref", "p"]]]], "excl": None}], "alpha": ["(", ")", "a"]}
+    src = "(" * 30 + "a" + ")" * 30
+    reqs = [(2, "p", src, 0), (0, "w", " " + src + src, 0), (1, "p", src + "x", 0)]
+    cls0, objs0 = pyimpl.build_grammar(g)
+    want = [req_impl(objs0, *q) for q in reqs]
+
+    def deep(n, f):
+        return deep(n - 1, f) if n > 0 else f()
+    old = sys.getrecursionlimit()
+    runs = 0
+    hit = 0
+    for limit in list(range(64, 200, 9)) + [230, 300]:
+        cls, objs = pyimpl.build_grammar(g)
+        for q in reqs:
+            sys.setrecursionlimit(limit)
+            try:
+                first = deep(40, lambda: req_impl(objs, *q))
+            except RecursionError:
+                first = "REC"
+            finally:
+                sys.setrecursionlimit(old)
+            second = req_impl(objs, *q)
+            runs += 1
+            k = reqs.index(q)
+            hit += first == "REC"
+            if second != want[k] or (first not in ("REC", want[k]) and not first.startswith("EXC:RecursionError")):
+                out.append({"class": "result", "op": ["req after an attempt that ended in RecursionError", q[0], q[1], q[2][:40], q[3]],
+                            "recursion_limit_of_first_attempt": limit, "first_attempt": first[:200], "impl": second[:300], "cold_twin": want[k][:300],
+                            "case": {"grammar": g}})
+                return out, hit
+    return out, hit
+
+
 def run_c08(cases):
     lines, plan, stats = [], [], {"requests": 0, "hits": 0, "misses": 0, "sets": 0, "clears": 0, "limit_changes": 0,
                                   "err_sets": 0}
@@ -946,9 +1052,25 @@ def main():
     if a.mode == "c08":
         cases = (c08_fixed() if a.seed % 100 == 0 else []) + [c08_case(a.seed, k) for k in range(a.n)]
         plan, mism, stats, distinct = run_c08(cases)
+        if a.seed % 100 == 0:
+            m2, runs = aborted_by_recursion()
+            stats["aborted_by_recursion_runs"] = runs
+            mism = m2 + mism
+        m3, st3 = sibling_grammars(a.seed, max(3, a.n // 4))
+        stats.update(st3)
+        mism = m3 + mism
         samples = [{"grammar": c["grammar"]["rules"], "default_limit": c["dflt"], "op": op, "observed": impl[:300]}
                    for c, op, impl in plan[:: max(1, len(plan) // 4)][:4]]
         ev = len(plan)
+    elif a.mode == "history-free":
+        # C07's "whatever was parsed before": the two history scenarios that need no model (answers vs a cold twin)
+        mism, stats = sibling_grammars(a.seed, max(4, a.n))
+        m2, runs = aborted_by_recursion()
+        stats["aborted_by_recursion_runs"] = runs
+        mism = m2 + mism
+        distinct = stats.get("sibling_requests", 0)
+        samples = [{"scenario": "two same-named grammar classes alive at once, requests alternate"}, {"scenario": "request aborted by RecursionError, then repeated"}]
+        ev = stats.get("sibling_requests", 0) + runs
     elif a.mode == "c13":
         cases = [c13_case(a.seed, k) for k in range(a.n)]
         plan, mism, stats, distinct = run_c13(cases)
